@@ -83,7 +83,13 @@ class HedgeLoss(Module, ABC):
             # evaluated along the path dimension like ``self(pl)``.
             return self(cash.expand_as(pl))
 
-        return bisect(fn, loss, lower, upper)
+        # The default precision of the binary search (1e-6) is absolute: a sample of level
+        # 32 in single precision cannot be bracketed that narrowly (one unit in the last
+        # place is 3.8e-6 there) and the search would only stop at its iteration limit.
+        # Ask for what the dtype can resolve at the scale of the sample.
+        scale = max(abs(lower.item()), abs(upper.item()))
+        precision = max(1e-6, 4 * torch.finfo(pl.dtype).eps * scale)
+        return bisect(fn, loss, lower, upper, precision=precision)
 
 
 class EntropicRiskMeasure(HedgeLoss):
